@@ -219,4 +219,14 @@ C16_UNITS += [
          quick=dict(sim=dict(num=150, depth=300), explore=dict(n=150), dfs=dict(max=200, pb=2)),
          thorough=dict(sim=dict(num=2000, depth=300), explore=dict(n=2000), dfs=dict(max=3000, pb=3))),
 ]
+C16_UNITS += [
+    # an arm panics while the other arm is still blocked in its top half and the poller may be asleep:
+    # the panic must reach the poller (explore only: the blocking top half is outside the spec)
+    dict(name="panic_top", scenario="cqueue",
+         params=dict(events=[1, 1], npoll=1, owner_co=False, workers=8, block_top=[0], panic_top=1),
+         quick=dict(explore=dict(n=300), dfs=dict(max=300, pb=2)), thorough=dict(explore=dict(n=3000), dfs=dict(max=3000, pb=3))),
+    dict(name="panic_bottom", scenario="cqueue",
+         params=dict(events=[1, 1], npoll=2, owner_co=True, workers=8, panic_arm=0),
+         quick=dict(explore=dict(n=300), dfs=dict(max=300, pb=2)), thorough=dict(explore=dict(n=3000), dfs=dict(max=3000, pb=3))),
+]
 PROPS["C16"] = dict(assumptions=["the event queue is a linearizable FIFO (C03); AbsBlocker (C02); join contract (C01)"], units=C16_UNITS)
